@@ -3601,7 +3601,7 @@ class ConnectiveDefMacro(Macro):
             if rhs.is_conj() and rhs.arg1.is_implies() and rhs.arg.is_implies():
                 q1, q2 = rhs.arg1.args
                 o1, o2 = rhs.arg.args
-                if q1 == p1 and o2 == p1 and p2 == q2 and p1 == o2:
+                if q1 == p1 and o1 == p2 and p2 == q2 and p1 == o2:
                     return Thm(goal)
                 else:
                     raise VeriTException("connective_def", "can't match  (p <--> q) <--> (p --> q) /\ (q --> p)")
